@@ -305,6 +305,12 @@ func famOdd() []archive {
 	out = append(out, archive{Family: "odd", Kids: []node{{Kind: "file", Name: "h", Size: 1}, half("n1.zip")}})
 	out = append(out, archive{Family: "odd", Kids: []node{half("n1.zip"), half("n2.zip"), half("n3.jar"), {Kind: "file", Name: "h", Size: 1}}})
 	out = append(out, archive{Family: "odd", Kids: []node{{Kind: "zip", Name: "o.zip", Kids: []node{half("n1.zip"), {Kind: "file", Name: "h", Size: 1}}}}})
+	// a nested archive that sits deep in a sub-directory and is FOLLOWED by a shallower entry (its own depth, not that of
+	// whatever was extracted last, is what its content is measured from); one and two levels
+	deepFile := []node{{Kind: "file", Name: "x/y/z", Size: 3}}
+	out = append(out, archive{Family: "odd", Kids: []node{{Kind: "zip", Name: "p/q/r/n1.zip", Kids: deepFile}, {Kind: "file", Name: "h", Size: 1}}})
+	out = append(out, archive{Family: "odd", Kids: []node{{Kind: "file", Name: "g", Size: 1}, {Kind: "zip", Name: "p/q/r/n1.zip", Kids: deepFile}, {Kind: "file", Name: "p/h", Size: 1}}})
+	out = append(out, archive{Family: "odd", Kids: []node{{Kind: "zip", Name: "p/q/n1.zip", Kids: []node{{Kind: "zip", Name: "u/v/n2.zip", Kids: []node{{Kind: "file", Name: "f", Size: 2}}}, {Kind: "file", Name: "g", Size: 1}}}, {Kind: "file", Name: "h", Size: 1}}})
 	// nested archive and a sibling directory with the name the nested archive is extracted to
 	out = append(out, archive{Family: "odd", Kids: []node{{Kind: "file", Name: "n1/f", Size: 2}, {Kind: "zip", Name: "n1.zip", Kids: []node{{Kind: "file", Name: "g", Size: 3}}}}})
 	return out
